@@ -471,3 +471,132 @@ func (c *Ctx) exitPaths(roots []*FuncInfo) [][]string {
 	}
 	return found
 }
+
+// decodedStructs: named struct types reachable from the target of encoding/xml / encoding/json
+// Unmarshal calls in the given packages.
+func (c *Ctx) decodedStructs(pkgRels ...string) map[*types.Named]bool {
+	out := map[*types.Named]bool{}
+	var visit func(t types.Type)
+	visit = func(t types.Type) {
+		switch x := t.(type) {
+		case *types.Pointer:
+			visit(x.Elem())
+		case *types.Slice:
+			visit(x.Elem())
+		case *types.Array:
+			visit(x.Elem())
+		case *types.Map:
+			visit(x.Elem())
+		case *types.Named:
+			if out[x] || !inRepoObj(x.Obj()) {
+				return
+			}
+			if st, ok := x.Underlying().(*types.Struct); ok {
+				out[x] = true
+				for i := 0; i < st.NumFields(); i++ {
+					visit(st.Field(i).Type())
+				}
+			}
+		}
+	}
+	for _, fi := range c.AllFuncs(pkgRels...) {
+		info := fi.Pkg.TypesInfo
+		for _, call := range callsIn(fi.Decl.Body, true) {
+			fn := calleeOf(info, call)
+			if fn == nil || fn.Pkg() == nil || fn.Name() != "Unmarshal" || len(call.Args) != 2 {
+				continue
+			}
+			if p := fn.Pkg().Path(); p != "encoding/json" && p != "encoding/xml" {
+				continue
+			}
+			visit(info.TypeOf(call.Args[1]))
+		}
+	}
+	return out
+}
+
+// nilDecode: a decoder leaves nil in every pointer it finds no value for (absent element, JSON
+// null). Every dereference of a pointer-typed field of a decoded struct, and every use of an
+// element of a slice-of-pointers field, must sit under a successful nil test of that very value.
+func (c *Ctx) nilDecode(rule string, pkgRels []string, clause string) (nptr int) {
+	dec := c.decodedStructs(pkgRels...)
+	isDecodedField := func(info *types.Info, e ast.Expr) (*types.Var, bool) {
+		fv, x := fieldOfSel(info, e)
+		if fv == nil {
+			return nil, false
+		}
+		t := info.TypeOf(x)
+		if p, ok := t.(*types.Pointer); ok {
+			t = p.Elem()
+		}
+		n, ok := t.(*types.Named)
+		return fv, ok && dec[n]
+	}
+	for _, fi := range c.AllFuncs(pkgRels...) {
+		info := fi.Pkg.TypesInfo
+		owner := funcName(fi.Obj)
+		guarded := func(target ast.Node, key string) bool {
+			conds, okc := c.pathConds(info, fi.Decl.Body, target, false)
+			if !okc {
+				return false
+			}
+			for _, cd := range conds {
+				if cd.Expr == nil {
+					continue
+				}
+				k := c.canon(info, cd.Expr, nil)
+				if (!cd.Neg && (k == "("+key+" != nil)" || k == "(nil != "+key+")")) || (cd.Neg && (k == "("+key+" == nil)" || k == "(nil == "+key+")")) {
+					return true
+				}
+				// conjunctions
+				if !cd.Neg && (strings.Contains(k, "("+key+" != nil)") || strings.Contains(k, "(nil != "+key+")")) && !strings.Contains(k, "||") {
+					return true
+				}
+			}
+			return false
+		}
+		ast.Inspect(fi.Decl.Body, func(m ast.Node) bool {
+			switch x := m.(type) {
+			case *ast.StarExpr:
+				// *(c.F)
+				if fv, ok := isDecodedField(info, x.X); ok {
+					if _, isPtr := fv.Type().(*types.Pointer); isPtr {
+						nptr++
+						key := c.canon(info, x.X, nil)
+						c.Check(guarded(x, key), rule, owner+"/*"+key, x.Pos(), "dereferenced under "+key+" != nil", "the decoded pointer "+key+" is dereferenced without a nil test: the decoder leaves it nil when the element is absent or null").Clause = clause
+					}
+				}
+			case *ast.RangeStmt:
+				// for _, v := range c.F  with F a slice of pointers
+				if fv, ok := isDecodedField(info, x.X); ok && x.Value != nil {
+					if sl, isSl := fv.Type().Underlying().(*types.Slice); isSl {
+						if _, isPtr := sl.Elem().(*types.Pointer); isPtr {
+							nptr++
+							v := identObj(info, x.Value)
+							// every use of v in the body must be under v != nil
+							bad := token.NoPos
+							ast.Inspect(x.Body, func(q ast.Node) bool {
+								if id, ok := q.(*ast.Ident); ok && info.Uses[id] == v && !bad.IsValid() {
+									if !guarded(id, v.Name()) {
+										// the test itself is a use
+										if st := stackTo(x.Body, id); len(st) >= 2 {
+											if be, ok := st[len(st)-2].(*ast.BinaryExpr); ok && (be.Op == token.EQL || be.Op == token.NEQ) {
+												return true
+											}
+										}
+										bad = id.Pos()
+									}
+								}
+								return true
+							})
+							key := c.canon(info, x.X, nil)
+							c.Check(!bad.IsValid(), rule, owner+"/range "+key, x.Pos(), "elements used only under a nil test", "elements of the decoded slice of pointers "+key+" are used without a nil test: a null entry in the document is a nil pointer").Clause = clause
+						}
+					}
+				}
+			}
+			return true
+		})
+	}
+	return nptr
+}
